@@ -616,6 +616,30 @@ def single_edits(col, lang, rel, stride, offset):
     col.label(f"single:{lang}")
 
 
+def marked_single_edits(col, lang):
+    """Every safe boundary of every hand-written base that carries suppression markers x blank line / comment line."""
+    from vf.props.c17 import template_cases
+
+    known = withheld_constructs(ID)
+    bases = sorted({c["template"]["text"] for c in template_cases() if c["template"]["lang"] == lang})
+    style = "hash" if lang == "Python" else "line"
+    n = 0
+    for text in bases:
+        boundaries, trailing, removable = safe_lines(lang, text)
+        for after in boundaries:
+            for kind, lines in (("blank", [""]), ("comment", comment_line(lang, style, "note", "")), ("ws", ["   "])):
+                edits, dropped = withhold_known(lang, text, [{"after": after, "lines": lines, "kind": kind}], known)
+                col.excluded_known += dropped
+                if not edits:
+                    continue
+                base, bad = check_plan(lang, text, edits)
+                n += 1
+                if bad:
+                    col.fail({"lang": lang, "text": text, "edits": edits}, bad[0], bad[1])
+    col.bulk(n, n)
+    col.label("single:marked-bases")
+
+
 def gen_strip(col, seed, n, lang):
     def body(v):
         rnd, size = v
@@ -635,6 +659,7 @@ def plan(tier, seed):
         jobs.append(("gen", {"seed": shard_seed(seed, ID, f"g{lang}"), "n": per, "lang": lang, "use_corpus": False}))
         jobs.append(("gen", {"seed": shard_seed(seed, ID, f"c{lang}"), "n": per, "lang": lang, "use_corpus": True}))
         jobs.append(("gen_strip", {"seed": shard_seed(seed, ID, f"s{lang}"), "n": 60 if quick else 1500, "lang": lang}))
+        jobs.append(("marked_single_edits", {"lang": lang}))
     files = corpus()
     stride = 30 if quick else 1
     for k, (lang, rel) in enumerate(files):
